@@ -309,7 +309,21 @@ func (m *Manager) AssignAddress(ctx context.Context, sessionID string, ipv4PoolI
 			return fmt.Errorf("allocate IPv4: %w", err)
 		}
 
+		// The session may have been terminated while the allocator was
+		// working: recording the address on a session that has left the
+		// table would leak it (nothing releases it any more) and leave a
+		// byIP entry for a session that does not exist.
 		m.mu.Lock()
+		if m.sessions[sessionID] != session {
+			m.mu.Unlock()
+			if err := m.allocator.ReleaseIPv4(ctx, ip); err != nil {
+				m.logger.Warn("Failed to release IPv4 of a session that ended during assignment",
+					zap.String("session_id", sessionID),
+					zap.Error(err),
+				)
+			}
+			return fmt.Errorf("session ended during address assignment: %s", sessionID)
+		}
 		session.IPv4 = ip
 		session.SubnetMask = mask
 		session.Gateway = gateway
@@ -328,6 +342,18 @@ func (m *Manager) AssignAddress(ctx context.Context, sessionID string, ipv4PoolI
 			)
 		} else {
 			m.mu.Lock()
+			if m.sessions[sessionID] != session {
+				m.mu.Unlock()
+				if ip != nil {
+					if err := m.allocator.ReleaseIPv6(ctx, ip); err != nil {
+						m.logger.Warn("Failed to release IPv6 of a session that ended during assignment",
+							zap.String("session_id", sessionID),
+							zap.Error(err),
+						)
+					}
+				}
+				return fmt.Errorf("session ended during address assignment: %s", sessionID)
+			}
 			session.IPv6 = ip
 			session.IPv6Prefix = prefix
 			if ip != nil {
